@@ -1033,7 +1033,9 @@ PROPS["C14"] = {
 ANNOT_TEXTS = ["@jsx h", " @jsx  h ", "* @jsx h", "*  @jsx custom.h", "@jsx h extra words", "@jsxImportSource vue", "@jsxRuntime classic", "@jsxFrag F",
                "@jsx", "@jsx ", "just a comment", "x @jsx h", "@JSX h", "* @jsxImportSource @vue/x", "@jsx\th", "@jsx h*/ /* @jsx k",
                # every JavaScript identifier is a factory name: `$`, `_`, digits after the first character, non-ASCII letters
-               "@jsx $h", "@jsx cr\u00e9er", "@jsx _$a.b$", "@jsx h2", "@jsx $"]
+               "@jsx $h", "@jsx cr\u00e9er", "@jsx _$a.b$", "@jsx h2", "@jsx $",
+               # member chains: property names may be reserved words, the object may be `this`
+               "@jsx h.default", "@jsx this.h", "@jsx a.class.new", "@jsx default.h", "@jsx this"]
 
 
 def comment(style, text):
@@ -1105,7 +1107,7 @@ PROPS["C15"] = {
     "theorems": ["C15_default_createVNode", "C15_comment_over_option", "C15_option_pragma", "C15_invalid_pragma_reported", "C15_fragment_callee", "C15_later_comment_wins",
                  "C15_unannotated_position_keeps", "C15_scan_no_tag", "C15_scan_other_jsx_tags", "C15_scan_bare", "C15_scan_name",
                  "C15_scan_result_is_one_word", "C15_element_callee", "visit_pragma", "visitKids_pragma",
-                 "C15_annotation_on_any_line", "C15_spec_reading_is_the_models"],
+                 "C15_annotation_on_any_line", "C15_spec_reading_is_the_models", "C15_spec_valid_pragma_is_the_models"],
     "extra_modules": ["VueJsx.Props.C15b"],
     "cases": c15_cases,
     "explanation": "oracle: the effective pragma is computed from the comments SWC attached before the module / each top-level item by the specification scanner (Oracle.specPragmaOfComment: any line of a comment) and the option; the real output must contain exactly one call of that identifier per lowered element/fragment and must not import createVNode; without a pragma every lowered element/fragment is a call of the createVNode imported once from one generated 'vue' import",
